@@ -137,6 +137,10 @@ type Invocation struct {
 	Cwd    string            `json:"cwd"` // world-relative
 	Env    map[string]string `json:"env,omitempty"`
 	Stdin  string            `json:"stdin,omitempty"`
+	// StdinBursts delivers stdin through a pipe in several writes (sizes in
+	// bytes, the rest in a last write) with a pause between them: a reader
+	// sees short reads, as with a slow producer
+	StdinBursts []int `json:"stdin_bursts,omitempty"`
 	Sched  *wire.Sched       `json:"schedule,omitempty"`
 	// StdoutTo: "" = pipe, otherwise an absolute path opened for writing (/dev/full)
 	StdoutTo string   `json:"stdout_to,omitempty"`
@@ -294,6 +298,16 @@ func Run(root string, inv *Invocation) (*Outcome, error) {
 	cmd.Dir = cwd
 	cmd.Env = env
 	cmd.Stdin = strings.NewReader(inv.Stdin)
+	var burstW *os.File
+	if len(inv.StdinBursts) > 0 {
+		pr, pw, err := os.Pipe()
+		if err != nil {
+			return nil, err
+		}
+		cmd.Stdin = pr
+		burstW = pw
+		defer pr.Close()
+	}
 	var stdout, stderr bytes.Buffer
 	cmd.Stderr = &limitWriter{buf: &stderr, max: 1 << 20}
 	if inv.StdoutTo != "" {
@@ -310,6 +324,26 @@ func Run(root string, inv *Invocation) (*Outcome, error) {
 	t0 := time.Now()
 	if err := cmd.Start(); err != nil {
 		return nil, err
+	}
+	if burstW != nil {
+		go func() {
+			defer burstW.Close()
+			rest := []byte(inv.Stdin)
+			for _, n := range inv.StdinBursts {
+				if n <= 0 || len(rest) == 0 {
+					continue
+				}
+				if n > len(rest) {
+					n = len(rest)
+				}
+				if _, err := burstW.Write(rest[:n]); err != nil {
+					return
+				}
+				rest = rest[n:]
+				time.Sleep(4 * time.Millisecond)
+			}
+			_, _ = burstW.Write(rest)
+		}()
 	}
 	done := make(chan error, 1)
 	go func() { done <- cmd.Wait() }()
